@@ -2097,6 +2097,10 @@ def separator_inverse(model: Model, R: RuleResult) -> int:
         ("all tensors", [T("T1"), T("T2"), T("T3")]),
         ("no tensors", [N("N1"), N("N2")]),
     ]
+    # the same tensor object passed in two slots: each slot is an argument of its own (the function is differentiated w.r.t. each position; the
+    # gradient of the object is the sum autograd accumulates), so both slots belong to the tensor group and both receive a fresh tensor
+    _Ta = T("T1")
+    scenarios.append(("one tensor in two slots", [_Ta, N("N1"), _Ta, T("T2")]))
     selfname = init.params()[0]
     n = 0
     for label, params in scenarios:
